@@ -198,6 +198,11 @@ def io_item(draw, kind):
     opts = []
     for n, vs in chosen:
         v = draw(vs)
+        if kind == 'VideoOut' and n == 'segtime' and draw(st.booleans()):
+            # documented text form '!segtime=h:mm' (minutes): '1:30' is 90 minutes; the structured form holds the number
+            hh, mm = draw(st.integers(0, 9)), draw(st.integers(0, 59))
+            opts.append([n, float(hh * 60 + mm), f'{hh}:{mm:02d}'])
+            continue
         opts.append([n, v, None if isinstance(v, bool) and not (n in ('loop', 'fps') and draw(st.booleans())) else json.dumps(v) if not isinstance(v, str) else v])
     tp = draw(st.sampled_from([None, None, 'main', 'cam', 'x1']))
     w1 = draw(ws)
